@@ -35,6 +35,26 @@ CLAIMED["C14"] = ("typestate abstract interpretation of the handler stack (push/
  "Sound static decision of: handlers in force exactly during the guarded evaluation; throw scans innermost-first, returns the first succeeding handler, fails after the scan; builder emits the right fields; generator traversals handle both kinds (F1, repaired).",
  "Not decided: dynamic nesting semantics beyond these shapes.",
  "DESIGN.md §3 C14")
+CLAIMED["C06"] = ("slice non-interference for debug and statistics (guard-position + who-may-read/write rules); typestate abstract interpretation of the memo-table discipline",
+ "Complete static decision that Debug and Statistics cannot influence results; sound decision of the memo discipline (key before, end after, same node, same guard, hit restores stored end) which gives at-most-once evaluation per (node, offset) outside left-recursive rules.",
+ "Not decided: that replaying a memoised result equals re-evaluating (purity of code blocks is the property's hypothesis); expected-set bookkeeping on memo hits.",
+ "DESIGN.md §3 C06")
+CLAIMED["C08"] = ("typestate abstract interpretation of the seed-growing loop and of rule dispatch in the 8 LeftRecursion variants",
+ "Narrow claim: nothing of the final non-extending attempt is retained (position, state store, error list), expression memo consistently off in left-recursive rules, dispatch of leader / non-leader rules, strict-growth loop condition. These are necessary conditions of the left-associative-iteration semantics.",
+ "Not decided: termination and longest match over all operand shapes; equality with and without Memoize (behavioural).",
+ "DESIGN.md §3 C08")
+CLAIMED["C16"] = ("must-pass-through summaries (least fixpoint over abstract-interpretation exits) applied to unbounded loops and call-graph cycles",
+ "Sound static decision that every unbounded repetition and every recursion of the interpreter charges the MaxExpressions budget, that the check precedes the dispatch, and that exhaustion is reported as an error (finding F11: memo hits bypass the budget in * / + loops).",
+ "Not decided: identical result with a budget that is not exhausted beyond ExprCnt being read nowhere else.",
+ "DESIGN.md §3 C16")
+CLAIMED["C17"] = ("guard/AST rules on read() and the option, who-may-write scan for the input, end-of-input dominance in the terminal matchers",
+ "Sound static decision of: invalid byte = one-byte U+FFFD in both modes, error added exactly when the flag is off, values are slices of the never-written input, no terminal advances at end of input (finding F9 for literals), flag confined to read().",
+ "Not decided: de-duplication of the encoding error under backtracking.",
+ "DESIGN.md §3 C17")
+CLAIMED["C18"] = ("ownership/effect analysis: type-resolved store scan, escape rules for *parser, pool discipline, linear clone tokens",
+ "Complete ownership argument for the runtime: grammar tree and package variables are never written during parsing, the only shared mutable object is a sync.Pool used under a clear-before-Put / overwrite-after-Discard / linear-token discipline, everything else hangs off a per-call parser that never escapes.",
+ "User code blocks and a user-shared *Stats are outside the claim. Trusted: sync.Pool.",
+ "DESIGN.md §3 C18")
 NA_REASON = {}
 DEFAULT_NA = "no check registered in this revision of the framework (see DESIGN.md for the planned static rules)"
 
